@@ -2,6 +2,7 @@
    import-free models and generated definitions, so it is compiled to a native executable. -/
 import DropletsVerif.Driver.C12
 import DropletsVerif.Driver.C11
+import DropletsVerif.Driver.C10
 
 open DV.Drv
 
@@ -9,6 +10,7 @@ def dispatch (line : String) : String :=
   match (line.splitOn " ").filter (· ≠ "") with
   | "c12" :: args => handleC12 args
   | "c11" :: args => handleC11 args
+  | "c10" :: args => handleC10 args
   | _ => "bad-op"
 
 partial def loop (h : IO.FS.Stream) (out : IO.FS.Stream) : IO Unit := do
